@@ -70,8 +70,8 @@ var c19Pool = []c19Item{
 }
 
 var c19WS = []string{" ", "\n", "\t", "  ", " \n", "\r\n"}
-var c19LineComments = []string{"% c\n", "%\n", "% end. here\n", "%% é日\n", "% 'q\n"}
-var c19BlockComments = []string{"/* c */", "/**/", "/* a. b */", "/* é % */", "/*\n*/"}
+var c19LineComments = []string{"% c\n", "%\n", "% end. here\n", "%% é日\n", "% 'q\n", "% \uFFFD!\n"}
+var c19BlockComments = []string{"/* c */", "/**/", "/* a. b */", "/* é % */", "/*\n*/", "/*\uFFFD*/"}
 
 type c19Source struct {
 	Bytes []byte
@@ -250,6 +250,16 @@ func (m *c19Model) step(op c19Op) c19Exp {
 			}
 			return c19Exp{val: eofVal}
 		}
+		if m.text {
+			if r, _ := utf8.DecodeRune(m.src.Bytes[m.pos:m.avail]); r == utf8.RuneError {
+				// U+FFFD (or invalid UTF-8) cannot be represented as a character: the operation raises. A peek leaves the
+				// cursor where it is; what a get has consumed when it raises is not asserted (the history stops there)
+				if !peek {
+					m.desync = true
+				}
+				return c19Exp{err: "error(representation_error(character)"}
+			}
+		}
 		var v string
 		n := 1
 		switch {
@@ -283,6 +293,10 @@ func (m *c19Model) step(op c19Op) c19Exp {
 			}
 			if m.text {
 				r, n := m.runeAt(m.pos)
+				if r == "\uFFFD" {
+					m.desync = true
+					return c19Exp{unk: true}
+				}
 				v = kit.AtomText(r)
 				m.pos += n
 			} else {
